@@ -1312,3 +1312,21 @@ def shrink(ck, line, cls):
 
 def search(rng, broken_lines):
     return gen(rng, "quick")[:400]
+
+
+# ---- source -> Gallina translator for the header constants this model uses (tr/lib_consts.py; LibImplCheck.v)
+LIB_TRANSLATOR = {}
+
+
+def coq_extra():
+    import sys as _sys, os as _os
+    import fw as _fw
+    _sys.path.insert(0, _os.path.join(_fw.VERIF, "tr"))
+    import lib_consts
+    files, info = lib_consts.coq_extra_for(_fw)
+    LIB_TRANSLATOR.update(info)
+    return files
+
+
+def extra_coverage():
+    return dict(lib_translator=dict(LIB_TRANSLATOR))
